@@ -19,11 +19,10 @@ Proof. exact steps_scope_total. Qed.
 Print Assumptions C05_steps_scope_total.
 
 (* needs sees exactly the directly needed, existing jobs other than the job itself
-   (the self test compares with the id as written: it only matters for a job that
-   needs itself, which the needs rule reports as a cycle anyway) *)
+   (compared case-insensitively) *)
 Theorem C05_needs_scope : forall jobs job n,
   resolve (needs_scope jobs job) [n] = VUndefined <->
-  ~ (In n (map lower (j_needs job)) /\ n <> j_rawid job /\ find_job jobs n <> None).
+  ~ (In n (map lower (j_needs job)) /\ n <> lower (j_rawid job) /\ find_job jobs n <> None).
 Proof. exact needs_scope_spec. Qed.
 Print Assumptions C05_needs_scope.
 
